@@ -16,6 +16,14 @@ CHECKS = {
    technique="exhaustive enumeration of all values x all spellings for widths 1..12 (thorough 1..16) plus structured-exhaustive hex-digit-alphabet enumeration for wide types, against big-integer arithmetic and LLVM's reading",
    text="For widths 1..12 (thorough ..16) every value in [-2^(w-1), 2^w-1] is pushed through every accepted spelling (decimal, u0x, s0x in upper/lower case and with leading zeros, true/false) and compared with a big-integer reference; Ident()->NewIntFromString identity is checked on all of them, on boundary sets for widths 17..64,65,127,128,129,1024,1025 and on all hex strings of length <=12 (16) over every 1- and 2-digit alphabet, which exhausts the printer's entropy-based hex/decimal decision classes; the same literals go through asm.ParseString and the printed module through llvm-as|llvm-dis against a reference module.",
    note="Wide widths are structured-exhaustive, not all 2^w values; s0x is defined by the type's width as the property states (LLVM's own active-bits reading of s0x is deliberately not used as oracle); LLVM 14 trusted for reading decimal/u0x."),
+ "C16": dict(level="model_checking", design="§2 C16",
+   technique="exhaustive enumeration of a bounded type universe (constructor depth <=2, thorough <=3), Equal evaluated on all ordered pairs in 6 universes of identified-struct bodies against an independent descriptor identity, plus print->parse of every type",
+   text="All types of constructor depth <=2 (thorough <=3) over every type kind (2 address spaces, fixed/scalable vectors, arrays, literal/packed structs, variadic functions, identified structs A,B) are built twice as independent object graphs in 6 universes of bodies for A,B (opaque, plain, self-recursive, mutually recursive, same-body, recursive through function/array types); types.Equal is evaluated on ALL ordered pairs (about 3.8e8 quick) and must coincide with equality of the harness's own structural descriptor, which makes it an equivalence that separates every differing attribute; every type is printed in a module, re-parsed, and compared with all types again.",
+   note="Reflexivity/symmetry/transitivity are implied by agreement with an equivalence relation on every pair of the universe; universes have unique type names and only structs are named, as the property states; deeper nesting than the bound is not explored."),
+ "C18": dict(level="model_checking", design="§2 C18",
+   technique="exhaustive enumeration of every enum constant (listed from the current source by go/types at check time) and of all flag subsets up to a bound, through String/FromString and through print+parse of a minimal module",
+   text="Every typed constant of all 35 enumerated types (653 distinct values, listed from the tree under test at check time, so an added constant is covered) goes through FromString(String(v)), per-type keyword injectivity, and a print->parse round trip inside a minimal module built through the API (one template per family); all 63 AllocKind subsets, all 2047 DISPFlag member subsets and all DIFlag subsets of <=3 (thorough <=4) members with their complements are printed, parsed and compared as values.",
+   note="PreemptionDSOLocalEquivalent has no grammar position (LLVM has none either) and is checked at keyword level only; DIFlag subsets larger than the bound (other than complements) are not explored."),
 }
 
 NOT_APPLICABLE = {}
